@@ -104,6 +104,9 @@ def run(cx):
         return tuple(letters) if letters else None
     spec = {("q0", "MUT"): "m", ("m", "LEN"): "done", ("q0", "LEN"): "l", ("l", "MUT"): "done"}
     res = events.check(append, classify, spec, "q0", {"q0", "done"})
+    if not res.violations and res.uncertain:
+        # only along paths through a test on state the event engine does not track: a loss of precision, not a finding
+        raise AnalysisError("R08b", f"{REL}::CHText append", f"pairing of chunk-list and length updates not decided: the only irregular paths go through a test on untracked state (line {res.uncertain[0][1][-1] if res.uncertain[0][1] else '?'}: {res.uncertain[0][0][:60]})")
     if not res.violations:
         cx.ob("R08b", append, True, f"every path mutates the chunk list once and the length once, or neither ({res.states} product states)", stmt="pairing")
     for msg, pth in res.violations[:3]:
@@ -691,6 +694,9 @@ def _r08j(cx, repo, cht):
         return None
     spec = {("q0", "ITEM"): "q1", ("q1", "SEP"): "q2", ("q2", "ITEM"): "q1"}
     res = events.check(join, classify, spec, "q0", {"q0", "q1"})
+    if not res.violations and res.uncertain:
+        # only along paths through a test on state the event engine does not track: a loss of precision, not a finding
+        raise AnalysisError("R08j", f"{REL}::CHText.join", f"join language not decided: the only irregular paths go through a test on untracked state (line {res.uncertain[0][1][-1] if res.uncertain[0][1] else '?'}: {res.uncertain[0][0][:60]})")
     if not res.violations:
         cx.ob("R08j", join, True, f"join emits ITEM (SEP ITEM)* ({res.states} product states)", stmt="join language")
     for msg, pth in res.violations[:3]:
